@@ -293,10 +293,22 @@ func (w *world) big(k int) ([]byte, string, string) {
 		b.event2("rim", 0, 3, []uint16{0xc}, func(i *builder) { i.sp800155(gceManufacturer, 0, make([]byte, maxInput-600)) })
 		return append([]byte(nil), b.buf.Bytes()...), "eventlog-1MiB-raw-locator", "eventlog"
 	case 15: // protobuf: 1 MiB of nested length-delimited field 1
+		// The nest is written outside-in from the computed lengths (linear). Wrapping a growing body
+		// once per level copies it every time: ~6 GB of garbage for this one input, which a worker on an
+		// oversubscribed machine did not get collected in time (out of memory inside the generator).
+		const widenAt = 200000 // nesting depth grows by one per level; beyond this size widen instead
+		var lens []int         // lens[k] = length of the body after k levels
+		for l := 0; l <= widenAt; l = 1 + protowire.SizeVarint(uint64(l)) + l {
+			lens = append(lens, l)
+		}
 		var body []byte
+		for k := len(lens) - 1; k >= 0; k-- {
+			body = protowire.AppendVarint(protowire.AppendTag(body, 1, protowire.BytesType), uint64(lens[k]))
+		}
+		body = append(body, body...)
 		for len(body) < maxInput-16 {
 			body = protowire.AppendBytes(protowire.AppendTag(nil, 1, protowire.BytesType), body)
-			if len(body) > 200000 { // nesting depth grows by one per round; widen instead
+			if len(body) > widenAt {
 				body = append(body, body...)
 			}
 		}
